@@ -12,10 +12,12 @@ THEOREMS = [
     "NakenVerif.Macro.define_transparent",
     "NakenVerif.Macro.equ_transparent",
     "NakenVerif.Macro.macro_transparent",
+    "NakenVerif.Macro.hand_expansion_stream",
     "NakenVerif.Macro.macro_body_is_word_substitution",
     "NakenVerif.Macro.include_transparent",
     "NakenVerif.Macro.repeat_copies",
     "NakenVerif.Macro.tab_in_string_counterexample",
+    "NakenVerif.Macro.string_semicolon_counterexample",
     "NakenVerif.Macro.param59_counterexample",
 ]
 RULE = ("mexp: sources built from a grammar of definitions (.define/#define with and without parameters, .macro/.endm, "
@@ -130,6 +132,8 @@ FOCUS = [
      "a tab inside a string literal of a macro body"),
     ("tab-in-string-arg", ".msp430\n.macro m(a)\n .db a\n.endm\n m(\"x\ty\")\n", ".msp430\n .db \"x\ty\"\n",
      "a tab inside a string literal passed as argument"),
+    ("string-semicolon", ".msp430\n.macro m(a)\n .db \"x;y\", a\n.endm\n m(1)\n", ".msp430\n .db \"x;y\", 1\n",
+     "a semicolon inside a string literal of a macro body"),
     ("param59", None, None, "a macro with 60 parameters that uses parameter 59"),
     ("empty-macro", ".msp430\n.macro e\n.endm\n .db 1\n e\n .db 2\n", ".msp430\n .db 1\n .db 2\n", "a macro with an empty body"),
 ]
@@ -219,25 +223,28 @@ def oracle(ctx, orc, focus=None):
     for i in range(ctx.scale(400, 4000)):
         cpu = rng.choice(cpus)
         base = S.base_program(rng, cpu, None, False)
-        reps.append((cpu,) + G.repeat_program(rng, base))
+        d = G.repeat_program(rng, base)
+        d["cpu"] = cpu
+        reps.append(d)
     lines = []
-    for cpu, w, r, n in reps:
-        lines += [nvlib.prog_line(w), nvlib.prog_line(r)]
+    for d in reps:
+        lines += [nvlib.prog_line(d["w"]), nvlib.prog_line(d["r"]), nvlib.prog_line(d["a"]), nvlib.prog_line(d["b"])]
     res = [nvlib.parse_prog(x) for x in ctx.impl(lines)]
-    for i, (cpu, w, r, n) in enumerate(reps):
+    for i, d in enumerate(reps):
         orc["cases"] += 1
-        rw, rr = res[2 * i], res[2 * i + 1]
-        v = judge_repeat(cpu, w, r, n, rw, rr, orc)
+        v = judge_repeat(d, res[4 * i], res[4 * i + 1], res[4 * i + 2], res[4 * i + 3], orc)
         stats["repeat:" + v] += 1
         if v == "ok":
-            seen.add(w)
+            seen.add(d["w"])
     orc["stats"] = {"verdicts": dict(stats), "kinds_in_passing_pairs": dict(kinds)}
     orc["distinct_nontrivial"] = len(seen)
     orc["samples"] = [{"wrapped": pairs[i]["wrapped"][:400], "kinds": pairs[i]["kinds"]} for i in range(0, len(pairs), max(1, len(pairs) // 4))][:4]
 
 
-def judge_repeat(cpu, w, r, n, rw, rr, orc):
-    if rr.get("died") or rr.get("st") != 0:
+def judge_repeat(d, rw, rr, ra, rb, orc):
+    """rw: with .repeat; rr: body once; ra: what precedes the body; rb: that plus the body"""
+    cpu, w, n = d["cpu"], d["w"], d["n"]
+    if any(x.get("died") or x.get("st") != 0 for x in (rr, ra, rb)):
         return "skip"
     tag = "%s:n%d:%s" % (cpu, n, nvlib.sha(w.encode("latin-1"))[:10])
     if rw.get("died") or rw["st"] != 0:
@@ -245,23 +252,26 @@ def judge_repeat(cpu, w, r, n, rw, rr, orc):
                                 "observed": rw["raw"][:200], "what": ".repeat around valid statements rejected"})
         return "fail"
     bpa = rr["bpa"]
-    sym_r = {nm: v for nm, v, sc, ex in rr["syms_list"]}
-    sym_w = {nm: v for nm, v, sc, ex in rw["syms_list"]}
-    start, end = sym_r["zstart"] * bpa, sym_r["zafter"] * bpa
+    base = d["org"] * bpa
+    # the image is one run of bytes from the origin: byte addresses of the body
+    if ra["image"] and (min(ra["image"]) != base or len(ra["image"]) != max(ra["image"]) - base + 1):
+        return "skip"
+    if not rb["image"] or min(rb["image"]) != base or len(rb["image"]) != max(rb["image"]) - base + 1:
+        return "skip"
+    start, end = base + len(ra["image"]), base + len(rb["image"])
     ln = end - start
-    if ln <= 0 or ln % bpa != 0:
-        return "skip"                    # labels are in address units: an odd byte count cannot be observed through them
-    body = [rr["image"].get(start + i) for i in range(ln)]
-    if any(b is None for b in body):
-        return "skip"                    # the body reserves space without writing it (resb): nothing to copy
+    if ln <= 0:
+        return "skip"
+    body = [rb["image"][start + i] for i in range(ln)]
+    sym_w = {nm: v for nm, v, sc, ex in rw["syms_list"]}
     want_after = start + n * ln
-    if sym_w.get("zstart", -1) * bpa != start:
-        orc["failures"].append({"sig": "C09:repeat-start:" + tag, "input": w, "expected": hex(start), "observed": str(sym_w.get("zstart")),
+    if sym_w.get("zstart", -1) != start // bpa:
+        orc["failures"].append({"sig": "C09:repeat-start:" + tag, "input": w, "expected": hex(start // bpa), "observed": str(sym_w.get("zstart")),
                                 "what": "label before .repeat moved"})
         return "fail"
-    if sym_w.get("zafter", -1) * bpa != want_after:
-        orc["failures"].append({"sig": "C09:repeat-length:" + tag, "input": w, "expected": "zafter = 0x%x" % want_after,
-                                "observed": "zafter = 0x%x" % (sym_w.get("zafter", -1) * bpa),
+    if sym_w.get("zafter", -1) != want_after // bpa:
+        orc["failures"].append({"sig": "C09:repeat-length:" + tag, "input": w, "expected": "zafter = 0x%x" % (want_after // bpa),
+                                "observed": "zafter = 0x%x" % sym_w.get("zafter", -1),
                                 "what": ".repeat %d did not advance by %d * %d bytes" % (n, n, ln)})
         return "fail"
     for k in range(n):
@@ -272,12 +282,13 @@ def judge_repeat(cpu, w, r, n, rw, rr, orc):
                                         "observed": str(rw["image"].get(start + k * ln + i)),
                                         "what": ".repeat %d: copy %d differs from the bytes of the body" % (n, k)})
                 return "fail"
-    # what follows the block is what followed the body, moved by (n-1)*len
-    for a, b in rr["image"].items():
-        if a >= end and rw["image"].get(a + (n - 1) * ln) != b:
-            orc["failures"].append({"sig": "C09:repeat-after:" + tag, "input": w, "expected": "byte %02x at 0x%x" % (b, a + (n - 1) * ln),
-                                    "observed": str(rw["image"].get(a + (n - 1) * ln)), "what": "bytes after .endr misplaced"})
-            return "fail"
+    # what follows the block is what followed the body, moved by (n-1)*len -- when that keeps the alignment
+    if ((n - 1) * ln) % max(bpa, 4) == 0:
+        for a, b in rr["image"].items():
+            if a >= end and rw["image"].get(a + (n - 1) * ln) != b:
+                orc["failures"].append({"sig": "C09:repeat-after:" + tag, "input": w, "expected": "byte %02x at 0x%x" % (b, a + (n - 1) * ln),
+                                        "observed": str(rw["image"].get(a + (n - 1) * ln)), "what": "bytes after .endr misplaced"})
+                return "fail"
     return "ok"
 
 
